@@ -8,7 +8,7 @@
     positions computes exactly the named semantics.  [compile_defs] extends this to definitions without parameters - recursive, nested, capturing
     the variables and labels in scope - against the table of definitions the compiler fills; [compile_params] adds variable parameters
     (`def f($a; $b): ...`, arguments evaluated in order and bound on top of the definition's environment), [compile_closures] filter
-    parameters (`def f(g): ...`: the argument is a closure over the caller's environment, run where `g` is called).  Destructuring patterns, formats, updates and
+    parameters (`def f(g): ...`: the argument is a closure over the caller's environment, run where `g` is called).  Nested destructuring patterns, formats, updates and
     native filters rest on the correspondence of tables and outputs. *)
 From Coq Require Import List FunctionalExtensionality.
 From JaqV Require Import Base.Bytes Base.Stream Val.Val Val.Err Core.Syntax Core.Compile Core.Natives Core.Run Proofs.StreamLaws Proofs.MonadLaws
@@ -149,8 +149,9 @@ Print Assumptions compile_params_closed.
 
 (** ** compiler correctness with filter parameters: closures *)
 (** [CompileClosures.frag]: as above, plus `def f(g; $a; ...): body` with filter parameters and calls `g` of them, object
-    construction (`{k: v}`, `{$x}`, `{k}`, any number of entries and outputs), strings with interpolation, `..` and `if` without
-    `else`.  In the named
+    construction (`{k: v}`, `{$x}`, `{k}`, any number of entries and outputs), strings with interpolation, `..`, `if` without
+    `else`, and destructuring with one level of variables (`. as [$a, $b] | ...`, `. as {k: $a} | ...`: keys evaluated on the
+    matched value in the environment of the binding, all combinations).  In the named
     semantics a filter argument is not evaluated at the call: the parameter is bound to the closure (argument term with the
     environment and definitions of the caller) and a call of the parameter runs it on the current input.  The compiled code
     binds the compiled argument with the caller's context and reaches it by position.  [agrees defs fuel]: the context holds,
